@@ -149,7 +149,7 @@ def run_case(case):
     w = M.World(row["bankobj"], case["addr"], case["short"], case["image"], vp["last"], vp["holes"],
                 case["lock"], unlock_value=vp["unlock_value"], no_dtr0_inc=vp["no_dtr0_inc"])
     fault = tuple(case["fault"]) if case.get("fault") else None
-    bus = M.MemBus(w.units, fault=fault, max_commands=60 + 6 * len(locs))
+    bus = M.MemBus(w.units, fault=fault, max_commands=60 + 6 * len(locs), watch=w.target)
     where = describe(case)
     addr = M.make_addr(case["addr"], case["short"])
     kw = {}
@@ -208,13 +208,24 @@ def run_case(case):
         cause = cause or "dtr0-not-advancing"
     unit_ok = cause is None
     injected = bus.injected
+    at_check = False
     if injected:
         q, kind = injected
-        cause = FAULT_NAMES[kind] + ("-at-dtr0-check" if q >= n else "")
-        if kind == "replace" and q >= n:
-            cause = "wrong-dtr0-at-dtr0-check"
+        what, entry = bus.fault_access
+        if what == "write" and entry[0] == spec["bank"] and entry[1] in locs:
+            cause = FAULT_NAMES[kind]
+        elif what == "other":
+            at_check = True            # the only other query a write may issue: QUERY CONTENT DTR0
+            cause = ("wrong-dtr0" if kind == "replace" else FAULT_NAMES[kind]) + "-at-dtr0-check"
+        else:
+            # an answer the statement does not speak about (e.g. a reply to the unlock write)
+            LAST_OUTCOME[0] = "outcome:fault-on-a-query-outside-the-statement"
+            return out
+        if ignore_feedback:
+            LAST_OUTCOME[0] = "outcome:ignored-feedback-with-fault"
+            return out
 
-    if injected and injected[1] == "replace" and injected[0] >= n and not unit_ok:
+    if injected and injected[1] == "replace" and at_check and not unit_ok:
         # the altered DTR0 answer may be exactly what a healthy unit would have said: nobody can tell
         LAST_OUTCOME[0] = "outcome:unit-failure-masked-by-altered-dtr0-answer"
         return out
@@ -542,7 +553,7 @@ def run(ctx):
     for i in range(0, len(rokeys), 10):
         shards.append((_shard_keys, (rokeys[i:i + 10], s, q)))
     for k in range(16):
-        shards.append((_shard_hyp, (s * 1000 + k, 250 if q else 6000)))
+        shards.append((_shard_hyp, (s * 1000 + k, 900 if q else 9000)))
     ctx.pmap(_dispatch, shards)
     ctx.result.exhaustive = False
     ctx.result.extra["writable_value_classes"] = len(wkeys)
